@@ -53,8 +53,9 @@ CMove(p) == {c \in {[op |-> "Move", dst |-> d, src |-> s] : d \in Work, s \in Wo
 SameType(p, a, b) == p[a].k = p[b].k /\ (p[a].k = "spl" => p[a].o = p[b].o)
 \* includes self-assignment (dst = src)
 CCopyAssign(p) == {c \in {[op |-> "CopyAssign", dst |-> d, src |-> s] : d \in Work \cap Live(p), s \in Live(p)} : SameType(p, c.dst, c.src)}
+\* includes x = std::move(x) (dst = src) in simulated histories
 CMoveAssign(p) == {c \in {[op |-> "MoveAssign", dst |-> d, src |-> s] : d \in Work \cap (Ss(p) \cup Ps(p)), s \in Work \cap (Ss(p) \cup Ps(p))} :
-                     c.dst # c.src /\ SameType(p, c.dst, c.src)}
+                     (Sim \/ c.dst # c.src) /\ SameType(p, c.dst, c.src)}
 CAssignLower(p) == {c \in {[op |-> "AssignLower", dst |-> d, src |-> s] : d \in Work \cap Ps(p), s \in LowP(p)} : p[c.src].o < p[c.dst].o}
 \* rv: an operand handed over as an rvalue (see Lifecycle!RvSlots); only slots of the working set are given away
 Rv1 == IF Sim THEN {0, 1} ELSE {0}
